@@ -24,7 +24,10 @@ Lc == <<99>>
 Lxyz == <<120, 89, 122>>
 Long62 == [i \in 1..62 |-> 108]
 
-Names == << <<La>>, <<Lb, La>>, <<Lab, Lb, La>>, <<Lc>>, <<Lxyz, Lc>>, <<>>, <<La, Lb, La>>, << <<98>>, La>>, <<Long62, Lc>> >>
+\* includes two names that differ only in bit 5 of a non-letter ('[' / '{'): different names, though a careless
+\* case-insensitive comparison would identify them
+Names == << <<La>>, <<Lb, La>>, <<Lab, Lb, La>>, <<Lc>>, <<Lxyz, Lc>>, <<>>, <<La, Lb, La>>, << <<98>>, La>>, <<Long62, Lc>>,
+            << <<97, 91, 98>>, Lb, La>>, << <<97, 123, 98>>, Lb, La>> >>
 QNames == << <<La>>, <<Lb, La>>, <<>>, <<Lab, Lb, La>> >>
 Types == <<TA, TAAAA, TNS, TCNAME, TPTR, TMX, TSOA, TDNAME, 16, 999>>
 Layouts == <<"plain", "greedy", "tails">>
